@@ -166,7 +166,7 @@ func c17WorkDir() (string, error) {
 
 // c17SysRootsKind: the kinds whose cases depend on what the process's system trust store contains.
 func c17SysRootsKind() bool {
-	return len(os.Args) > 1 && (os.Args[1] == "tls" || os.Args[1] == "tlscfg" || os.Args[1] == "upcfg" || os.Args[1] == "uprouter")
+	return len(os.Args) > 1 && (os.Args[1] == "tls" || os.Args[1] == "tlscfg" || os.Args[1] == "upcfg" || os.Args[1] == "uprouter" || os.Args[1] == "uphistory")
 }
 
 // c17PoolIs: pool holds exactly the given certificates (compared by raw subject; every harness CA has its own).
